@@ -380,7 +380,7 @@ RowSort = z3.Datatype("Row")
 RowSort.declare("row", ("present", z3.BoolSort()), ("scale", z3.RealSort()),
                 *[("d%d" % i, z3.RealSort()) for i in range(NDIM)],
                 ("dref", z3.IntSort()), ("offset", z3.RealSort()), ("tex", z3.StringSort()),
-                ("prefixable", z3.BoolSort()))
+                ("prefixable", z3.BoolSort()), ("derived", z3.BoolSort()))
 RowSort = RowSort.create()
 LutSort = z3.ArraySort(z3.StringSort(), RowSort)
 
@@ -389,9 +389,22 @@ def row_dim(r):
     return SDim([getattr(RowSort, "d%d" % i)(r) for i in range(NDIM)], RowSort.dref(r))
 
 
+class RowTuple(tuple):
+    """a table row read back from a symbolic table: the 5-tuple plus the row term (so that the
+    marker class of generated rows, _DerivedEntry, can be tested with isinstance)"""
+    row = None
+
+
+class MarkedTuple(tuple):
+    """instance of a plain tuple subclass of the package used as a marker (e.g. _DerivedEntry)"""
+    mark = None
+
+
 def row_tuple(r):
-    return (RowSort.scale(r), row_dim(r), RowSort.offset(r), RowSort.tex(r),
-            RowSort.prefixable(r))
+    t = RowTuple((RowSort.scale(r), row_dim(r), RowSort.offset(r), RowSort.tex(r),
+                  RowSort.prefixable(r)))
+    t.row = r
+    return t
 
 
 def make_row(it, tup):
@@ -402,14 +415,26 @@ def make_row(it, tup):
         raise Unsupported("row dimension %r" % (dim,))
     if isinstance(tex, SV) or tex is None:
         tex = it.fresh_str("tex")
+    if isinstance(tup, RowTuple):
+        derived = RowSort.derived(tup.row)
+    else:
+        derived = z3.BoolVal(isinstance(tup, MarkedTuple))
     return RowSort.row(z3.BoolVal(True), to_real(scale), *[to_real(x) for x in dim.vec],
                        to_z3(dim.ref), to_real(offset), to_z3(tex),
-                       to_z3(pref) if is_bool(pref) else _truthy(it, pref))
+                       to_z3(pref) if is_bool(pref) else _truthy(it, pref), derived)
 
 
 def _truthy(it, v):
     t = it.truth_term(v)
     return to_z3(t)
+
+
+def deleted_row(r):
+    """same payload, present = False (the payload of an absent row is never read)"""
+    return RowSort.row(z3.BoolVal(False), RowSort.scale(r),
+                       *[getattr(RowSort, "d%d" % i)(r) for i in range(NDIM)],
+                       RowSort.dref(r), RowSort.offset(r), RowSort.tex(r),
+                       RowSort.prefixable(r), RowSort.derived(r))
 
 
 ABSENT = None
@@ -471,17 +496,22 @@ class SLut(SV):
         it.ctx.events.append(("store", self.label, key))
         r = self.row(key)
         # a deleted row: same payload, present = False (payload is never read when absent)
-        newr = RowSort.row(z3.BoolVal(False), RowSort.scale(r),
-                           *[getattr(RowSort, "d%d" % i)(r) for i in range(NDIM)],
-                           RowSort.dref(r), RowSort.offset(r), RowSort.tex(r),
-                           RowSort.prefixable(r))
-        self.term = z3.Store(self.term, to_z3(key), newr)
+        self.term = z3.Store(self.term, to_z3(key), deleted_row(r))
+
+    def guarded_delete(self, it, guard, key):
+        """`if guard: del table[key]` without forking (guard implies the key is present)"""
+        r = self.row(key)
+        it.ctx.events.append(("store", self.label, key))
+        self.term = z3.If(guard, z3.Store(self.term, to_z3(key), deleted_row(r)), self.term)
 
     def sv_getattr(self, it, name):
         if name == "get":
             def get(it_, key, default=None):
                 if not is_str(key):
                     raise Unsupported("non-string key")
+                if default is None:
+                    # no fork: an optional row (None when absent)
+                    return OptRow(self.row(key))
                 if it_.branch(self.has(key)):
                     return row_tuple(self.row(key))
                 return default
@@ -494,6 +524,30 @@ class SLut(SV):
 
     def sv_truth(self, it):
         raise Unsupported("truth value of a symbolic unit table")
+
+
+class OptRow(SV):
+    """result of table.get(key): the row, or None when the key is absent"""
+
+    def __init__(self, row):
+        self.row = row
+
+    def sv_is_none(self, it):
+        return it.branch(z3.Not(RowSort.present(self.row)))
+
+    def sv_truth(self, it):
+        return RowSort.present(self.row)      # a present row is a non-empty tuple
+
+    def concrete(self, it):
+        if it.branch(RowSort.present(self.row)):
+            return row_tuple(self.row)
+        return None
+
+    def sv_getitem(self, it, key):
+        v = self.concrete(it)
+        if v is None:
+            raise PyRaise("TypeError")
+        return it.getitem(v, key)
 
 
 class SCache(SV):
@@ -538,6 +592,14 @@ class SCache(SV):
             it.raise_("KeyError")
         it.ctx.events.append(("cache-del", self.label, key))
         self.keys = z3.Store(self.keys, to_z3(key), z3.BoolVal(False))
+
+    def sv_getattr(self, it, name):
+        if name == "clear":
+            def clear(it_):
+                it_.ctx.events.append(("cache-clear", self.label))
+                self.keys = z3.K(z3.StringSort(), z3.BoolVal(False))
+            return Intrinsic("dict.clear", clear)
+        raise Unsupported("dict method %s on the unit cache" % name)
 
     def sv_truth(self, it):
         raise Unsupported("truth of symbolic cache")
@@ -697,7 +759,9 @@ class UnytDomain:
             # a plain tuple subclass used as a marker (e.g. _DerivedEntry): behaves as its tuple;
             # the marker itself is ghost state (which rows were generated) recorded as an event
             it.ctx.events.append(("marked-tuple", ci.name, args[0]))
-            return args[0]
+            m = MarkedTuple(args[0])
+            m.mark = ci.name
+            return m
         new = it.repo.find_method(ci, "__new__")
         init = it.repo.find_method(ci, "__init__")
         if new is not None:
@@ -956,6 +1020,13 @@ def _isinstance1(it, obj, c):
     if isinstance(c, ClassRef):
         if isinstance(obj, SObj):
             return any(k.qualname == c.ci.qualname for k in it.repo.mro(obj.cls))
+        if "tuple" in c.ci.bases:                       # marker classes (_DerivedEntry)
+            if isinstance(obj, OptRow):
+                return z3.And(RowSort.present(obj.row), RowSort.derived(obj.row))
+            if isinstance(obj, RowTuple):
+                return RowSort.derived(obj.row)
+            if isinstance(obj, MarkedTuple):
+                return obj.mark == c.ci.name
         return False
     if isinstance(c, ExcClassRef):
         return isinstance(obj, SExc) and it.repo.exc_issubclass(obj.name, c.name)
